@@ -701,6 +701,83 @@ def lhs_rows_case(kind):
     return Case(cname, body, goals, family="lhs_rows/" + kind, params=dict(kind=kind), **_BOUNDS)
 
 
+def translate_optional_case():
+    """Translate around a circle whose radius function declares a default for its only argument (no necessary variable):
+    a t supplied through the parameter rows is honoured by the circle, and by the box of the translated circle"""
+    cname = "encloses/Translate(Circle[r(t=default)])/k2"
+
+    def body(env):
+        L = env.L
+        r0, r1 = env.tensor("R0", ()), env.tensor("R1", ())
+        c, v = env.tensor("Cc", (2,)), env.tensor("Tv", (2,))
+        e0, e1, ec, ev = SH.elems(env, r0)[0], SH.elems(env, r1)[0], SH.elems(env, c), SH.elems(env, v)
+
+        def radius(t=1.0):
+            return r0 + r1 * t
+
+        X = tp.spaces.R2("x")
+        dom = tp.domains.Translate(tp.domains.Circle(X, c, radius), v)
+        P, rows = SH.params(env, [("t", 1)], 2)
+        for prm in rows:
+            env.assume(L.gt(e0 + e1 * prm["t"][0], 0))
+        env.assume(L.gt(e0 + e1, 0))
+        with minmax_mode(env, "ite"):
+            box = dom.bounding_box(P)
+        q = SH.elems(env, env.tensor("q", (2,)))
+        mem = []
+        for prm in rows:
+            rr = e0 + e1 * prm["t"][0]
+            dx, dy = q[0] - ec[0] - ev[0], q[1] - ec[1] - ev[1]
+            mem.append(L.le(dx * dx + dy * dy, rr * rr))
+        return dict(box=box, shape=list(box.shape), q=q, mem=mem)
+
+    def goals(o, L, env):
+        b = o["box"]
+        flat = [x for r in b for x in (r if isinstance(r, list) else [r])] if isinstance(b, list) else [b]
+        rowsb = [flat[i:i + 4] for i in range(0, len(flat), 4)]
+        yield "box_has_four_numbers_per_row", len(flat) % 4 == 0 and len(rowsb) in (1, 2)
+        if len(flat) % 4 or len(rowsb) not in (1, 2):
+            return
+        for i, m in enumerate(o["mem"]):
+            bx = rowsb[min(i, len(rowsb) - 1)]
+            for a in range(2):
+                yield "member_inside_box[row%d,axis%d]" % (i, a), L.Implies(m, L.And(rle(L, bx[2 * a], o["q"][a]), rle(L, o["q"][a], bx[2 * a + 1])))
+
+    return Case(cname, body, goals, family="encloses/translate_optional", **_BOUNDS)
+
+
+def boundary_two_orders_case():
+    """history: the box of ONE boundary object is asked twice with the same numbers under the two variable orders (t,s)
+    and (s,t): each answer is the box for the named values"""
+    cname = "bencloses/Circle[c(s),r(t)]/same_numbers_other_variable_order"
+
+    def body(env):
+        from .c17 import circle_ts
+        L = env.L
+        sh = circle_ts(env, tag="A")
+        bd = sh.dom.boundary
+        vals = env.tensor("pv", (1, 2))
+        a, b = SH.elems(env, vals)
+        T_, S_ = tp.spaces.R1("t"), tp.spaces.R1("s")
+        out = []
+        for order, sp, prm in (("ts", T_ * S_, {"t": [a], "s": [b]}), ("st", S_ * T_, {"s": [a], "t": [b]})):
+            env.assume(sh.oset.positive(prm, L))
+            with minmax_mode(env, "ite"):
+                box = bd.bounding_box(Points(vals, sp))
+            out.append(dict(order=order, box=box.reshape(-1), want=sh.oset.bbox(prm, L)))
+        return dict(q=out)
+
+    def goals(o, L, env):
+        for q in o["q"]:
+            yield "layout[%s]" % q["order"], len(q["box"]) == 4
+            if len(q["box"]) == 4:
+                for ax, (lo, hi) in enumerate(q["want"]):
+                    yield "tight_min[%s,axis%d]" % (q["order"], ax), req(L, q["box"][2 * ax], lo)
+                    yield "tight_max[%s,axis%d]" % (q["order"], ax), req(L, q["box"][2 * ax + 1], hi)
+
+    return Case(cname, body, goals, family="bencloses/history", **_BOUNDS)
+
+
 def two_queries_case():
     """history: the SAME product object (factors depend on an external parameter, not on each other) is asked for its
     box twice with different parameter rows; each answer must be the exact box of its own row"""
@@ -783,6 +860,8 @@ def cases(tier):
             if name == "Sphere[t]":
                 cs.append(encloses_case(name, mk, info, 2, mode="ite"))
     cs.append(two_queries_case())
+    cs.append(translate_optional_case())
+    cs.append(boundary_two_orders_case())
     cs.append(fixed_angle_case("Rotate45(unit square)", "lead"))
     for j in ((1,) if quick else (1, 2, 3)):
         cs.append(fixed_angle_case("Rotate%d(Parallelogram)" % (90 * j), "quarter%d" % j))
